@@ -347,6 +347,10 @@ impl<P: Payload> TaskCtx<P> {
             self.log.borrow_mut().counters[4] += 1;
             let w = Waker::from(waker.clone());
             let mut cx = Context::from_waker(&w);
+            // an executor consumes the wake-up before it polls: after a `Pending` it waits for a NEW wake-up
+            // (a wake-up that arrives during the poll sets the flag again). Without this a legal early
+            // wake-up would turn the loop into busy polling.
+            waker.flag.store(false, O::Relaxed);
             match poll(&mut cx) {
                 Poll::Ready(out) => return Some(out),
                 Poll::Pending => {
